@@ -164,7 +164,8 @@ class ResolveConfigPath:
 
 # ------------------------------------------------------------------ the library entry point builds ITS orchestrator
 try:
-    from contracts.c05_parse import LoaderT, yaml_doc, file_of
+    from contracts.c05_parse import LoaderT, yaml_doc, file_of, toml_doc, tool_thailint, dict_items, pyproject_of
+    from contracts.c05_config import norm_fold
     from contracts import c07_parallel as _c07  # noqa: F401  (Orchestrator.__init__ contract)
     _INIT_DEPS = True
 except BaseException:  # noqa
@@ -183,6 +184,15 @@ class LinterInit:
         return project_root is not None and (
             isinstance(yaml_doc(file_of(resolved_config(project_root, config_file))), dict)
             or yaml_doc(file_of(resolved_config(project_root, config_file))) is None)
+
+    def ensures_pyproject_fallback_reaches_the_library(self, config_file, project_root):
+        # C10: the configuration is loader.load(<resolved path>) UNCONDITIONALLY -- also when that path does not exist,
+        # because the pyproject.toml [tool.thailint] fallback lives inside load() (the CLI's Orchestrator.__init__ calls
+        # load() unconditionally too): a project configured only through pyproject.toml is configured for both entry points
+        return implies(not fs_exists(resolved_config(project_root, config_file)),
+                       self.config == norm_fold(dict_items(tool_thailint(toml_doc(file_of(pyproject_of(
+                           resolved_config(project_root, config_file)))))), {})
+                       or self.config == {"rules": {}, "ignore": []})
 
     def ensures_one_configuration_one_root(self, config_file, project_root):
         return self.project_root == project_root and self.orchestrator.project_root == project_root \
